@@ -143,17 +143,21 @@ func c13Scenario(c *Ctx, idx int, r *Rng) (mline, mimpl, mcase string) {
 	runIn(w.dir, append(append([]string(nil), w.env...), "GIT_LFS_SKIP_SMUDGE=1"), "git", "checkout-index", "-f", "-a")
 	// a staged, uncommitted pointer (only the no-argument form looks at the index)
 	var staged *c13File
-	if r.Chance(30) {
+	if r.Chance(40) {
 		content := r.Bytes(200)
-		staged = &c13File{path: "staged.bin", kind: "canonical", content: content}
+		spath := "staged.bin"
+		if r.Chance(60) {
+			spath = Pick(r, []string{"a.bin", "b.bin", "dir/c.bin", "f.bin"}) // a NEW VERSION of a path that HEAD already has
+		}
+		staged = &c13File{path: spath, kind: "canonical", content: content}
 		staged.oid, staged.size = store(content), int64(len(content))
 		staged.blob = canonicalPointer(staged.oid, staged.size)
 		tmp := filepath.Join(base, "blob.tmp")
 		os.WriteFile(tmp, staged.blob, 0o644)
 		h, _ := w.git("hash-object", "-w", "--no-filters", tmp)
-		w.git("update-index", "--add", "--cacheinfo", "100644,"+strings.TrimSpace(h)+",staged.bin")
-		w.write("staged.bin", staged.blob)
-		log("staged staged.bin")
+		w.git("update-index", "--add", "--cacheinfo", "100644,"+strings.TrimSpace(h)+","+spath)
+		w.write(spath, staged.blob)
+		log("staged %s", spath)
 	}
 	// ---- damage
 	objState := map[string]string{} // oid -> intact | corrupt | missing
@@ -175,7 +179,7 @@ func c13Scenario(c *Ctx, idx int, r *Rng) (mline, mimpl, mcase string) {
 	sort.Strings(oidList)
 	for _, o := range oidList {
 		objState[o] = "intact"
-		if !r.Chance(35) {
+		if !(r.Chance(35) || (staged != nil && o == staged.oid && r.Chance(50))) {
 			continue
 		}
 		p := w.objectPath(o)
